@@ -1,4 +1,4 @@
-import Tw.Model.NetRef
+import Tw.Model.NetFault
 import Tw.Drv.Conn6
 
 /-!
@@ -16,6 +16,9 @@ A session is one endpoint plus a clock.  Request lines:
     tick | needs_tick
     feed … k=<n> | tick k=<n>            the application pulls only `n` items of the returned iterator
     dup                                   oracle-only marker: an address is about to get a second peer
+    fail <addr> <k>                       arm a send fault: the k-th next `Callback::send` to <addr> returns `Err`
+                                          (a call during which a send failed prints ` x=<datagrams not sent> err=<n>` at the end)
+    f:<op> …                              executed by the implementation side under its oracle only; both sides print `skip`
     nextid <n>                            verification hook `Net::verif_set_next_peer_id` (counter of fresh ids)
     sweep s|c <depth> <lo> <hi> | <op> ; <op> ; …      hash form: all sequences of `depth` calls over the alphabet
 
@@ -58,6 +61,8 @@ structure World where
   net : Net := Net.new true
   now : Nat := 0
   dead : Bool := false
+  /-- armed send faults (`fail <addr> <k>`) -/
+  arms : Arms := []
 
 def parseOp (args : List String) : Option Op :=
   match args with
@@ -102,6 +107,11 @@ def stepLine (w : World) (toks : List String) : World × String :=
     | some ms => ({ w with now := w.now + msToUs ms }, "ok")
     | none => (w, "bad-op")
   | ["dup"] => (w, "ok")
+  | ["fail", a, k] =>
+    match a.toNat?, k.toNat? with
+    | some a, some k =>
+      if 1 ≤ k ∧ k ≤ 1000 ∧ a < 4294967296 then ({ w with arms := w.arms ++ [(a, k)] }, "ok") else (w, "bad-op")
+    | _, _ => (w, "bad-op")
   | ["nextid", n] =>
     match n.toNat? with
     | some n => if n < idMod then ({ w with net := { w.net with nextPeerId := n } }, "ok") else (w, "bad-op")
@@ -114,9 +124,18 @@ def stepLine (w : World) (toks : List String) : World × String :=
       | none => (w, "bad-op")
       | some op =>
         let env : Tw.Conn6.Env := { now := w.now, draws := parseDraws toks }
-        match stepLazy env w.net op (parsePull toks) with
-        | .error f => ({ w with dead := true }, failStr f)
-        | .ok (net, r, o) => ({ w with net := net }, outLine net r o)
+        if w.arms.isEmpty then
+          match stepLazy env w.net op (parsePull toks) with
+          | .error f => ({ w with dead := true }, failStr f)
+          | .ok (net, r, o) => ({ w with net := net }, outLine net r o)
+        else
+          -- send faults are armed (the generator never combines them with a partly consumed result)
+          match stepF env w.net w.arms op with
+          | .error f => ({ w with dead := true }, failStr f)
+          | .ok (net, r, o, x, arms) =>
+            let tail := if x.isEmpty then "" else
+              s!" x={listStr (x.map fun (a, p) => s!"{a}@{packetStr p}")} err={x.length}"
+            ({ w with net := net, arms := arms }, outLine net r o ++ tail)
 
 /-- split the alphabet of a `sweep` request at the `;` tokens -/
 def splitOps (toks : List String) : List (List String) :=
@@ -155,6 +174,10 @@ def stepTop (w : World) (toks : List String) : World × String :=
       let ops := (splitOps rest).toArray
       if ops.size == 0 then (w, "bad-op") else (w, s!"h {sweep (kind == "s") ops depth lo hi}")
     | _, _, _ => (w, "bad-op")
+  | t :: _ =>
+    -- `f:<op> …` (send-fault sessions that are not compared): executed by the implementation side
+    -- under its oracle only; both sides print `skip`
+    if t.startsWith "f:" then (w, "skip") else stepLine w toks
   | _ => stepLine w toks
 
 def main : IO Unit := runLoop stepTop ({} : World)
